@@ -66,6 +66,81 @@ def gen_cases(rng, n, runner):
     return items
 
 
+DEEP = 100000
+
+
+def deep_inputs(pk, depth):
+    """(kind, top ttype code, bytes) : `depth` levels of nesting through ONE container kind alone and mixed; the innermost
+    value is an empty container, so the input is well-formed for a reader without a depth limit"""
+    out = []
+    if pk == "compact":
+        lst, st = b"\x19", b"\x1a"
+        out.append(("list", 15, lst * depth + b"\x03"))
+        out.append(("set", 14, st * depth + b"\x03"))
+        out.append(("map-value", 13, b"\x01\x3b\x00" * depth + b"\x00"))
+        out.append(("map-key", 13, b"\x01\xb3" * depth + b"\x00" + b"\x00" * depth))
+        out.append(("struct", 12, b"\x1c" * depth + b"\x00" * (depth + 1)))
+        # mixed: list of set of map(value) of struct(field 1) of list ...
+        unit_open = b"\x1a" + b"\x1b" + b"\x01\x3c" + b"\x00" + b"\x19"      # list<set>, set<map>, map<i8,struct> hdr, key, struct field 1: list
+        out.append(("mixed", 15, b"\x1a" + (b"\x1b" + b"\x01\x3c\x00" + b"\x19" + b"\x1a") * (depth // 4) + b"\x03"))
+    else:
+        def i32(n):
+            return n.to_bytes(4, "big" if pk == "binary" else "little")
+        def i16(n):
+            return n.to_bytes(2, "big" if pk == "binary" else "little")
+        out.append(("list", 15, (b"\x0f" + i32(1)) * depth + b"\x03" + i32(0)))
+        out.append(("set", 14, (b"\x0e" + i32(1)) * depth + b"\x03" + i32(0)))
+        out.append(("map-value", 13, (b"\x03\x0d" + i32(1) + b"\x00") * depth + b"\x03\x03" + i32(0)))
+        out.append(("map-key", 13, (b"\x0d\x03" + i32(1)) * depth + b"\x03\x03" + i32(0) + b"\x00" * depth))
+        out.append(("struct", 12, (b"\x0c" + i16(1)) * depth + b"\x00" * (depth + 1)))
+        out.append(("mixed", 15, b"\x0e" + i32(1) + (b"\x0d" + i32(1) + b"\x03\x0c" + i32(1) + b"\x00" + b"\x0f" + i16(1) + b"\x0e" + i32(1)) * (depth // 4)
+                    + b"\x03" + i32(0)))
+    return out
+
+
+def deep_cases(depth=DEEP):
+    """hostile nesting far beyond every limit, through each container kind, for every skipper and reader entry"""
+    cases = []
+    for pk in PKS:
+        for kind, code, b in deep_inputs(pk, depth):
+            hx = b.hex()
+            # an exception / enclosing struct whose (unknown) field 9 is the deep value
+            if pk == "compact":
+                ct = {15: 9, 14: 10, 13: 11, 12: 12}[code]
+                fld = bytes([0x90 | ct])
+            else:
+                fld = bytes([code]) + (b"\x00\x09" if pk == "binary" else b"\x09\x00")
+            fh = (fld + b).hex()
+            cases.append(("sk %s sync %d %s -" % (pk, code, hx), dict(kind="deep-skip", nest=kind)))
+            cases.append(("sk %s async:all %d %s -" % (pk, code, hx), dict(kind="deep-askip", nest=kind)))
+            cases.append(("appr %s %s" % (pk, fh), dict(kind="deep-app", nest=kind)))
+            cases.append(("aappr %s %s all" % (pk, fh), dict(kind="deep-aapp", nest=kind)))
+            cases.append(("rds %s sync %s 9" % (pk, fh), dict(kind="deep-loop", nest=kind)))
+            cases.append(("rds %s async:all %s 9" % (pk, fh), dict(kind="deep-aloop", nest=kind)))
+            if kind != "mixed":
+                cases.append(("rd %s %d %s" % (pk, code, hx), dict(kind="deep-read", nest=kind)))
+                cases.append(("ard %s %d %s all" % (pk, code, hx), dict(kind="deep-aread", nest=kind)))
+            if pk == "binary" and kind != "mixed":
+                cases.append(("usk %d %s -" % (code, hx + "00" * 16), dict(kind="deep-uskip", nest=kind)))
+    return cases
+
+
+def deep_oracle(case, meta, out):
+    if out.startswith("panic"):
+        return "decoder panicked on deeply nested input (%s)" % meta["nest"]
+    if out.startswith("CRASH"):
+        return "decoder crashed the process on deeply nested input (%s nesting, %d levels): stack overflow / abort" % (meta["nest"], DEEP)
+    if out.startswith("HANG"):
+        return "asynchronous decoder did not finish on deeply nested input"
+    k = meta["kind"]
+    if k in ("deep-skip", "deep-askip", "deep-app", "deep-aapp", "deep-loop", "deep-aloop"):
+        if not out.startswith("err DepthLimit"):
+            return "nesting of %d levels (%s) is beyond the skip-depth limit but the skipper answered: %s" % (DEEP, meta["nest"], out[:60])
+    elif not (out.startswith("ok ") or out.startswith("err ")):
+        return "unexpected output: " + out[:60]
+    return None
+
+
 def strip_impl(o):
     o = re.sub(r" MEM \d+", "", o)
     i = o.find(" ORACLE-FAIL")
@@ -109,7 +184,10 @@ def run_prim(chk, replay=None):
                        "(all for <=48 bytes), single-bit flips, every offset overwritten with boundary words/varints "
                        "(-1, 0, 1, remaining+-1, i32::MAX, u32::MAX, over-long varints) and type bytes, plus random strings; "
                        "x {binary, binary_le, compact}; ard = the asynchronous reader under a delivery schedule. "
-                       "non-trivial = derived from a valid encoding (not pure random); distinct by SHA-1 of the case line")
+                       "non-trivial = derived from a valid encoding (not pure random); distinct by SHA-1 of the case line. "
+                       "deep: %d levels of nesting through list / set / map key / map value / struct alone and mixed x 3 protocols x "
+                       "{skip, async skip, ApplicationException::decode(_async) with the value as an unknown field, field-loop skip sync/async, "
+                       "generic reader sync/async, unchecked iterative skipper}, each case in its own process (stack overflow = crash)" % DEEP)
     bins = [("debug", hb)] if hb else []
     if hb and chk.tier == "thorough":
         ok, hb2, _ = core.build_harness(release=True)
@@ -134,7 +212,22 @@ def run_prim(chk, replay=None):
             for c, o, m in zip(cases, impl, model):
                 if strip_impl(o) != m:
                     mism.append((c, o, m, prof))
-    for c in (cases[0], cases[len(cases) // 3], cases[-1]):
+    # hostile nesting: every case in its own process (an overflow of the native stack kills the process; the driver then
+    # reports the case as CRASH and the input is the replay)
+    deep = deep_cases() if replay is None else []
+    if replay is not None and str(replay.get("meta", [""])[0]).startswith("deep-"):
+        deep = [(replay["case"], dict(kind=replay["meta"][0], nest=replay["meta"][1]))]
+        items, cases = [], []
+    for prof, b in bins:
+        if deep:
+            douts = core.run_lines(b, [c for c, _ in deep], shards=len(deep), timeout=600)
+            for (c, meta), o in zip(deep, douts):
+                kinds[meta["kind"]] = kinds.get(meta["kind"], 0) + 1
+                chk.count(c[:200] + str(len(c)), True)
+                why = deep_oracle(c, meta, o)
+                if why:
+                    failing.append((c, (meta["kind"], meta["nest"]), "%s [%s build]" % (why, prof), o))
+    for c in ((cases[0], cases[len(cases) // 3], cases[-1]) if cases else ()):
         chk.sample(c[:300])
     chk.cov["disagreements_checked"] = len(cases) * len(bins)
     chk.cov["model_impl_mismatches"] = len(mism)
